@@ -56,6 +56,7 @@ OutMatches(e, r) ==
 RustAgrees(e) ==
     CASE e.rres \in {"ok", "fail"} -> (e.ret = 1) = (e.rres = "ok")
       [] e.rres \in {"yes", "no"}  -> (e.ret = 1) = (e.rres = "yes")
+      [] e.rres \in {"rd_ok", "rd_fail", "rd_none"} -> (e.ret > 0) = (e.rres = "rd_ok")   \* OpenFileEx / ExtractFile
       [] OTHER -> TRUE
 T_Ret ==
     /\ Ev.ev = "Ret" /\ tpend[Ev.th] /\ vpc[Ev.th] = "Idle"
@@ -65,6 +66,7 @@ T_Ret ==
     /\ Ev.ret = vret[Ev.th].ret
     /\ OutMatches(Ev, vret[Ev.th])
     /\ RustAgrees(Ev)
+    /\ IF Ev.rres = "rd_fail" THEN PrintT(<<"DRIFT", tl, Ev.fn \o ": the Rust API cannot read a file of the session either (wow-mpq)">>) ELSE TRUE
     /\ IF Ev.err = vret[Ev.th].err THEN TRUE
        ELSE PrintT(<<"DRIFT", tl, Ev.fn \o ": last error " \o Ev.err \o ", model " \o vret[Ev.th].err>>)
     /\ tpend' = [tpend EXCEPT ![Ev.th] = FALSE]
